@@ -52,7 +52,7 @@ CONSUMERS = {
 BIG_ALLOC = {
     "list": ["resize", "resize_with"],
     "string": ["repeat"],
-    "iterator": ["chunks", "windows", "step"],   # step n: every next() loops n-1 times
+    "iterator": ["chunks", "windows", "step", "skip", "advance"],   # step / skip / advance n: loops n times
 }
 # type modules: the receiver types that make sense (arity-3 sampling draws the receiver from these)
 RECEIVER_TAGS = {
